@@ -29,13 +29,14 @@ RULE = ("Installations (1..4 ACs x 0..16 zones, contiguous partitions, AT4 old/n
 ASSUMPTIONS = ["the console answers as the vendor documents prescribe (SimConsole on refproto)",
                "an unsolicited truthful frame of the awaited kind counts as the answer",
                "connect latency of exactly 5 s races with the 5 s timeout: either result accepted"]
-REQUIRED_OBS = ["init_true_judged", "init_false_judged", "extras_inserted", "zero_zone_at5",
+REQUIRED_OBS = ["last_step_gated", "init_true_judged", "init_false_judged", "extras_inserted", "zero_zone_at5",
                 "zero_zone_at4",
                 "bitmap_partitions", "old_format_multi_ac", "silence_cases", "late_connect_cases"]
 BUDGET = {"quick": 100, "thorough": 1500}
 
 EXTRAS = ["unsol_ac_status", "unsol_zone_status", "dup_version", "dup_names", "unknown_type",
-          "unknown_sub", "other_client_status", "foreign_echo", "error_text"]
+          "unknown_sub", "other_client_status", "foreign_echo", "foreign_echo_from_console",
+          "error_text"]
 AWAITED = {
     "version_request": lambda rd: isinstance(rd, dict) and "update" in rd,
     "names_request": lambda rd: isinstance(rd, dict) and "names" in rd,
@@ -125,6 +126,13 @@ def make_extra(con, name):
                     R.frame(5, 0x80, 0xB1, 8, 0xC0, R.c0_request(0x21))]
         return [R.frame(4, 0x80, 0xB1, 7, 0x2B, b""), R.frame(4, 0x90, 0xB1, 7, 0x1F,
                                                              R.ext(0xFF12))]
+    if name == "foreign_echo_from_console":
+        # the same request shapes, sent by the console to some other client
+        if g == 5:
+            return [R.frame(5, 0xB1, 0x80, 7, 0x1F, R.ext(0xFF13)),
+                    R.frame(5, 0xB1, 0x80, 8, 0xC0, R.c0_request(0x21))]
+        return [R.frame(4, 0xB1, 0x80, 7, 0x2B, b""), R.frame(4, 0xB1, 0x90, 7, 0x1F,
+                                                             R.ext(0xFF12))]
     if name == "error_text":
         return [con.frame_error(0)]
     return []
@@ -144,14 +152,20 @@ def cases(tier, seed):
                 for seg in ((0, 1) if tier == "quick" else (0, 1, 2)):
                     yield {"gen": gen, "seed": rnd.randrange(1 << 30), "extras": {step: [ex]},
                            "seg": seg, "silent": None, "lat": 0.0}
+                # the extra frames arrive, the answer only half a second later
+                yield {"gen": gen, "seed": rnd.randrange(1 << 30), "extras": {step: [ex]},
+                       "seg": 0, "silent": None, "lat": 0.0, "gap": 0.5}
     # random multi insertions
     m = 150 if tier == "quick" else 50000
     for i in range(m):
         ex = {}
         for _ in range(rnd.randint(2, 6)):
             ex.setdefault(rnd.choice(C.STEPS), []).append(rnd.choice(EXTRAS))
+        lat = rnd.choice([0.0, 0.0, 1.0, 4.9])
+        # (six gaps and the connect latency together stay well inside the 5 s init budget)
         yield {"gen": rnd.choice((4, 5)), "seed": rnd.randrange(1 << 30), "extras": ex,
-               "seg": rnd.randrange(3), "silent": None, "lat": rnd.choice([0.0, 0.0, 1.0, 4.9])}
+               "seg": rnd.randrange(3), "silent": None, "lat": lat,
+               "gap": rnd.choice([0.0, 0.0, 0.25]) if lat <= 1.0 else 0.0}
     # silence and late connects
     for gen in (4, 5):
         for k in range(0, 6):
@@ -159,6 +173,15 @@ def cases(tier, seed):
                 for rep in range(1 if tier == "quick" else 6):
                     yield {"gen": gen, "seed": rnd.randrange(1 << 30), "extras": {},
                            "seg": rep % 3, "silent": k, "lat": lat}
+        # the console stops answering at step k while unrelated traffic goes on
+        for k in range(0, 6):
+            for ex in EXTRAS:
+                if ex in ("unsol_ac_status", "unsol_zone_status", "dup_version", "dup_names"):
+                    # a truthful status of the awaited kind *is* an answer, whoever asked
+                    continue
+                yield {"gen": gen, "seed": rnd.randrange(1 << 30),
+                       "extras": {C.STEPS[k]: [ex]}, "seg": k % 3, "silent": k, "lat": 0.0,
+                       "extra_when_silent": True}
         for lat in (4.9, 5.0, 5.1, 12.0):
             for refuse in (0, 1, 3):
                 yield {"gen": gen, "seed": rnd.randrange(1 << 30), "extras": {}, "seg": 0,
@@ -204,6 +227,8 @@ def run_case(case):
         return frames
 
     knobs = C.Knobs(extra=extra if case["extras"] else None, silent_from=case["silent"],
+                    extra_when_silent=case.get("extra_when_silent", False),
+                    answer_gap=case.get("gap", 0.0),
                     segmenter=segmenter(case["seg"], rnd))
 
     async def main(loop, net, log):
@@ -214,6 +239,7 @@ def run_case(case):
         w = AW.ModelWorld(gen, loop, net, log, inst, knobs)
         t0 = loop.time()
         r = await w.init()
+        out["ret_seq"] = log.mark()
         out["ret"], out["t"] = r, loop.time() - t0
         out["initialised_at_return"] = w.at.initialised
         out["snap"] = H.snapshot(w.at)
@@ -296,6 +322,22 @@ def run_case(case):
                     ok = True
         if not ok:
             v("next-request-before-answer-delivered", step=k_i, next=k_n)
+    # the last step has no next request: init() may only return True once its answer is in
+    last = [sq for sq, k in req_seq if k == "zone_status_request"]
+    if out["ret"] is True and last:
+        s_i = last[0]
+        ok = False
+        for seq, f, rd in delivered:
+            if s_i < seq <= out["ret_seq"]:
+                if AWAITED["zone_status_request"](rd):
+                    ok = True
+                if isinstance(rd, dict) and rd.get("request") is not None \
+                        and f.to == R.ADDR_CLIENT and not inst["zones"]:
+                    ok = True
+        if ok:
+            obs["last_step_gated"] = 1
+        else:
+            v("init-true-before-last-answer-delivered", t=out["t"])
     # ---- return value
     if must_fail and not race:
         if ret is not False:
